@@ -67,6 +67,11 @@ def handle (op : String) (args : List String) : Option String :=
   | "snell_ext", [nx, ny, nz, cθ, cφ, p, pol, t] => do
     pure (fl (snellExternal ⟨← parseFl nx, ← parseFl ny, ← parseFl nz⟩ (← parseFl cθ) (← parseFl cφ)
       (← parseFl p) (← parsePol pol) (← parseFl t)))
+  | "snell_int", [nx, ny, nz, cθ, cφ, p, pol, e] => do
+    pure (match snellInternal ⟨← parseFl nx, ← parseFl ny, ← parseFl nz⟩ (← parseFl cθ) (← parseFl cφ)
+        (← parseFl p) (← parsePol pol) (← parseFl e) with
+      | .ok x => fl x
+      | _ => "PANIC")
   | "waist_pos", [nx, ny, nz, cθ, cφ, len, pol] => do
     pure (fl (optimalWaistPosition ⟨← parseFl nx, ← parseFl ny, ← parseFl nz⟩ (← parseFl cθ)
       (← parseFl cφ) (← parseFl len) (← parsePol pol)))
